@@ -5,6 +5,7 @@ go 1.23
 toolchain go1.23.5
 
 require (
+	github.com/MinterTeam/mhub2/keys-generator v0.0.0
 	github.com/MinterTeam/mhub2/minter-connector v0.0.0
 	github.com/MinterTeam/mhub2/module v0.0.0
 	github.com/MinterTeam/minter-go-sdk/v2 v2.5.2
@@ -132,6 +133,8 @@ require (
 replace github.com/MinterTeam/mhub2/module => /repo/module
 
 replace github.com/MinterTeam/mhub2/minter-connector => /repo/minter-connector
+
+replace github.com/MinterTeam/mhub2/keys-generator => /repo/keys-generator
 
 replace github.com/gogo/protobuf => github.com/regen-network/protobuf v1.3.3-alpha.regen.1
 
